@@ -192,7 +192,13 @@ pub struct Response<T> { pub messages: Vec<SubMsg<T>>, pub attributes: Vec<Attri
 
 // ---- queries
 pub struct BankQuery { pub opaque: u64 }
-pub struct StakingQuery { pub opaque: u64 }
+pub enum StakingQuery {
+    BondedDenom {},
+    AllDelegations { delegator: String },
+    Delegation { delegator: String, validator: String },
+    AllValidators {},
+    Validator { address: String },
+}
 pub struct IbcQuery { pub opaque: u64 }
 pub struct GrpcQuery { pub path: String, pub data: Binary }
 pub enum WasmQuery {
